@@ -36,6 +36,8 @@ def gen_case(rng, i):
         rows.append((co, sum(a * pt[v] for v, a in co.items()) + rng.choice([0, 1, 2, 3, 5])))
     if shape == "segment":
         a, b = rng.choice([1, 2, -1]), rng.choice([1, -1, 2])
+        if rng.random() < 0.4:
+            a = b = rng.choice([1, 2, -1])          # a segment on an anti-diagonal  x + y = const
         c = rng.randint(-2, 2)
         rows = [({xv: a, yv: b}, c), ({xv: -a, yv: -b}, -c)] + rows[:1]
     elif shape == "point":
